@@ -14,13 +14,13 @@ R13 = 'semantic values are ghost identifiers (R13): std::variant/optional/tuple,
 OWNED = {r'stack/capacity:': ['C06', 'C12'], r'stack/capacity-shape:': ['C06', 'C12', 'C07']}
 
 L_KNUTH = "Knuth's LR(1) theorem (closed states + goto kernels + table read off the items + driver executing the table => accepts exactly L(G)) is not mechanised; analyze_states (the work-list loop), closure, transitions and the four FIRST/nullable functions are each under contract with their callees replaced by abstract contracts over ghost tables, i.e. each does the textbook step given what the others return - that the memoised recursion reaches the least fixed point is not claimed (finding D4)"
-GLUE = 'grammar_info glue: analyze_term / analyze_nterm / analyze_eof / analyze_error_recovery_token / make_symbol / analyze_rule are under contract (unit glue) against abstract DSL objects whose accessors are under contract in units terms, rules, values; the pack expansions that call them once per term / nonterminal / rule (analyze_terms, analyze_nterms, analyze_rules), create_lexer and init_reductors (R18) are outside the extraction'
+GLUE = 'grammar_info glue: the constructor\'s step order, analyze_terms / analyze_nterms / analyze_rules (their pack expansions lowered to loops, R21), analyze_term / analyze_nterm / analyze_eof / analyze_error_recovery_token / make_symbol / analyze_rule, create_lexer and init_reductors are under contract (units glue, reductors) against abstract DSL objects whose accessors are under contract in units terms, rules, values; the tuple builders terms() / nterms() / rules() / nterm::operator() and std::tuple / std::get themselves are outside the extraction'
 
 PROPS = {
     'C01': dict(units=['state_analyzer', 'state_analyzer@small', 'driver', 'stdex', 'glue', 'charnames'],
                 claim='local step contracts of the LR(1) construction that are within reach: item index encode/decode round trip, memo-key injectivity of the FIRST/nullable slice memos, rule sorting (ordered + permutation) and per-nonterminal slices (partition), add_situation (item set, item list, bucket by symbol after the dot, kernel), bitset primitives; and the driver executing the table entry of (top state, presented term)',
                 assumptions=[L_KNUTH, GLUE, L_PATH, TABLE_WF]),
-    'C03': dict(units=['regex_decode', 'dfa', 'dfa@small'], static=[SF.regex_grammar_static],
+    'C03': dict(units=['regex_decode', 'dfa', 'dfa@small', 'charnames'], static=[SF.regex_grammar_static],
                 claim='the specified links of the chain: decoding of characters/escapes/hex and ranges (unsigned, inclusive), the automaton run loop (longest prefix, slot-0 winner, stops only at end or missing transition), expr::match = whole-string recognition of term 0 without forming a pointer from the failure sentinel',
                 assumptions=['language equality over unbounded strings is not expressible as a contract; the composition operators (cat/alt/star/plus/opt/rep by in-place merging) are not verified and are unsound (finding D9)',
                              'well-formedness of the library-built automata (every transition none or < size) rests on the builder, not verified: [L-wf]', 'string_view_to_subset and the dfa_builder primitives are not under contract']),
@@ -38,20 +38,20 @@ PROPS = {
                 claim='dfa_size_analyzer arithmetic (prim/add/rep: {0} keeps the slice, {n} adds n-1 copies) under an explicit no-wrap precondition; cvector preconditions (size < N) as call-site obligations; stack/capacity of the driver; add_situation capacity preconditions',
                 assumptions=['analyser vs builder lock-step over the same parse is not mechanised; the builder (rep/cat/alt/...) is not under contract', 'sufficiency of the default table caps is a counting (pigeonhole) argument, not mechanised',
                              'nothing in the header establishes the no-wrap precondition of dfa_size_analyzer::rep (finding D12)']),
-    'C02': dict(units=['driver', 'stdex', 'dfa', 'terms', 'rules', 'values', 'glue', 'reductors', 'cvec_iter'],
+    'C02': dict(units=['driver', 'stdex', 'dfa', 'terms', 'rules', 'values', 'glue', 'reductors', 'cvec_iter', 'ftors'],
                 claim='driver-level half of bottom-up evaluation: which rule functor is invoked, with which stack slice, in which order, once; shift applies the term functor of the shifted term to the pending lexeme; success returns the bottom value',
                 assumptions=[L_PATH, L_IDS, TABLE_WF, R13, 'that the popped slice is the handle of the unique derivation is the LR(1) theorem (C01), not mechanised']),
-    'C04': dict(units=['driver', 'utils', 'dfa', 'dfa@small', 'buffers', 'terms', 'values'], static=[SF.buffers_static],
+    'C04': dict(units=['driver', 'utils', 'dfa', 'dfa@small', 'buffers', 'terms', 'values', 'charnames'], static=[SF.buffers_static],
                 claim='whitespace skipping is exactly the documented sets; the lexer is asked once at the skipped position with the whole rest of the buffer; the lexeme is exactly [current_it, current_it+len); a failure result yields one Unexpected character report',
                 assumptions=[LEXER, 'longest match/first-listed priority of the automaton itself: unit dfa (dfa_match/run); the union automaton built by merging is not verified (finding D10)']),
-    'C06': dict(units=['driver', 'stdex', 'utils', 'regex_lexer', 'dfa', 'values', 'cvec_iter', 'state_analyzer'], all=['driver', 'stdex'],
+    'C06': dict(units=['driver', 'stdex', 'utils', 'regex_lexer', 'dfa', 'values', 'cvec_iter', 'state_analyzer', 'charnames'], all=['driver', 'stdex'],
                 claim='every CBMC safety check (bounds, pointer validity/overflow, signed/unsigned overflow, division) plus the logical bounds woven by R9/R7 on every parse-path function under its precondition; recovery pops and input discarding strictly progress',
                 assumptions=[L_PATH, L_IDS, TABLE_WF, LEXER, 'termination of a run of reductions that consume nothing (no reduce cycle in a conflict-free table) is not mechanised',
                              'std::vector / std::string stacks and buffers are trusted; the proof is for the cvector stacks']),
     'C08': dict(units=['driver', 'state_analyzer', 'glue', 'state_analyzer@small'],
                 claim='step relation of the driver loop written from the documented recovery algorithm: enter (one message, nothing discarded), pop (one state and its value), shift of the error symbol, input discarding, exits',
                 assumptions=[L_PATH, L_IDS, TABLE_WF, LEXER]),
-    'C09': dict(units=['driver', 'terms', 'values', 'glue', 'dfa', 'charnames'],
+    'C09': dict(units=['driver', 'terms', 'values', 'glue', 'dfa', 'charnames', 'state_analyzer'],
                 claim='without error rules and not verbose: no event before the failure, exactly one (Unexpected character | Syntax error) on failure with position and payload, none on success',
                 assumptions=[L_PATH, TABLE_WF, LEXER, 'that the term reported is the first that cannot continue a valid prefix is the immediate-error-detection property of canonical LR(1) tables (C01), not mechanised']),
     'C10': dict(units=['driver', 'values'],
@@ -71,7 +71,7 @@ PROPS = {
     'C15': dict(units=['driver'], all=['driver'], static=[SF.c15_static],
                 claim='frame: no parse-path function writes parse_table, gi, state_count, names or any other parser member (assigns clauses contain only parse-local state); static scan: no mutable/const_cast/function-local static, parse members const',
                 assumptions=['data-race freedom follows from read-only sharing; no schedule is explored', R13]),
-    'C16': dict(units=['driver', 'values', 'entry', 'charnames'], all=['driver'], static=[SF.c16_static],
+    'C16': dict(units=['driver', 'values', 'entry', 'charnames', 'dfa'], all=['driver'], static=[SF.c16_static],
                 claim='every contract states the same state change for verbose on and off (verbose only adds events); trace payloads (Shift to, Reduced using rule, Go to, Recognized) equal the action performed',
                 assumptions=['stream type: both no_stream and std::ostream lower to the ghost event sink (R10); text formatting is not verified', LEXER]),
     'C17': dict(units=['utils', 'regex_lexer', 'terms', 'values', 'glue', 'charnames'], static=[SF.regex_grammar_static],
